@@ -118,6 +118,10 @@ CLAIMS = {
          'non-contiguous, negative). gateway_coef_sign is a known finding.',
          BND_NOTE % 'C14' + LX, 'Lean label-invariance proofs for the modularity values; relabelling on all partitions of small node sets (bounded) for the other consumers', '5/C14'),
 }
+CLAIMS['C16'] = ('exploration', BND + 'The body of get_components builds a Python list of sets with comprehensions: outside the VC generator\'s subset (and its natural invariant is a nested-quantifier list-of-sets '
+                 'statement, DESIGN 5/C16). Only the rejection clause is discharged deductively on every run (prefix contract: execution passes the symmetry check only if A[x,y] = A[y,x] for all cells, every other '
+                 'path raises BCTParamError; argument untouched). Bounded: ALL labelled undirected graphs n<=5 (quick) / n<=6 (thorough) incl. non-zero diagonals, weights, forests, late-merge edge orders; own union-find oracle; '
+                 'agreement with distance_bin, breadthdist, reachdist.', BND_NOTE % 'C16', 'bounded exhaustive enumeration with an independent union-find; pyvc prefix contract for the rejection clause', '5/C16')
 for _pid in ['C03', 'C08', 'C16', 'C18', 'C19', 'C20']:
     CLAIMS[_pid] = ('exploration', BND + 'See DESIGN.md section 5/%s for the clauses and why the deductive tier does not (yet) reach them.' % _pid,
                     BND_NOTE % _pid, 'runtime contracts on the real code over exhaustive small scopes (bounded stand-in)', '5/' + _pid)
